@@ -19,14 +19,14 @@ FORK = True
 RUNS = {"quick": 8000, "thorough": 150_000}
 RULE = "run = generated virtual web of 1-8 sheets (import tree/DAG with media on edges, missing or failing targets, unwrappable content, every URL form) + seeded operations getUrls / replaceUrls (identity, prefixing, recording) / resolveImports / csscombine (normal, minified) judged against an expansion oracle computed from the generator's abstract sheets with urljoin"
 REAL = ["cssutils/__init__.py (getUrls, replaceUrls, Replacer, resolveImports, _resolve_import, _check_media_proxy)", "cssutils/script.py (csscombine)", "cssutils/css/cssimportrule.py", "cssutils/css/value.py (URIValue)", "cssutils/_fetch.py (default fetcher)", "urllib.parse"]
-STUBS = ["SimNet fetcher / fake urllib.request.urlopen serving the virtual web", "SimLog"]
+STUBS = ["SimNet fetcher / fake urllib.request.urlopen serving the virtual web", "scratch directory holding the same tree as real files (csscombine(path=): parseFile + default fetcher on file: URLs, real file I/O)", "SimLog"]
 ASSUMPTIONS = [
     "where the statement leaves a choice the outcome is observed: an import whose flattened group contains @page / @font-face / nested @media may be wrapped or kept",
     "kept @import leaves are necessarily hoisted, so kept imports and all other leaves are compared as two separate ordered sequences",
     "a kept import below depth 1 may keep its href verbatim or have it rebased (statement ambiguous); a depth-1 kept import must resolve to its original target",
     "fetch-once is judged on trees (one edge per target)",
 ]
-PROBES = ["import_with_media_wrapped", "import_kept_unavailable", "import_kept_unwrappable", "nested_import_depth2", "nested_import_depth3", "url_with_query_or_fragment", "parent_relative_url", "absolute_import", "replacer_called", "csscombine_minified", "missing_nested_under_media"]
+PROBES = ["csscombine_path", "import_with_media_wrapped", "import_kept_unavailable", "import_kept_unwrappable", "nested_import_depth2", "nested_import_depth3", "url_with_query_or_fragment", "parent_relative_url", "absolute_import", "replacer_called", "csscombine_minified", "missing_nested_under_media"]
 
 HOST = "http://h"
 DIRS = ["/css/", "/css/sub/", "/css/sub/deep/", "/other/", "/"]
@@ -388,6 +388,44 @@ class World:
             if k2 != "ok":
                 raise Viol("flatten_total", "csscombine:output-unparsable", f"{out_bytes!r}: {s2!r}")
             self.compare(s2, self.root, "csscombine-min" if op["minify"] else "csscombine")
+        elif k == "combine_path":
+            # the same tree materialised as files: parseFile + the default fetcher on file: URLs (real file I/O)
+            import pathlib
+            import shutil
+            import tempfile
+            from cssutils.script import csscombine
+
+            rel_only = all(urllib.parse.urlsplit(u).netloc == "h" for u in self.sheets) and all(
+                not it[1].startswith(("http", "//", "/")) for sh in self.sheets.values() for it in sh["items"] if it[0] == "import"
+            )
+            if not rel_only:
+                return "n/a"
+            tmp = tempfile.mkdtemp(prefix="simfs-c19-")
+            try:
+                for u, sh in self.sheets.items():
+                    if sh["fault"]:
+                        continue  # MISSING_FILE
+                    fp = pathlib.Path(tmp + urllib.parse.urlsplit(u).path)
+                    fp.parent.mkdir(parents=True, exist_ok=True)
+                    fp.write_text(render(sh), encoding="utf-8")
+                rootpath = tmp + urllib.parse.urlsplit(self.root).path
+                kk, out_bytes = lib.call(csscombine, path=rootpath, minify=op["minify"])
+                if kk != "ok":
+                    raise Viol("flatten_total", f"csscombine(path):raises:{lib.ename(out_bytes)}", f"csscombine(path=...) raised {out_bytes!r}")
+                self.stats["accepted"] += 1
+                self.stats["probe:csscombine_path"] += 1
+                mode = cu.log.raiseExceptions
+                cu.log.raiseExceptions = False
+                try:
+                    k2, s2 = lib.call(lambda: cu.CSSParser(fetcher=lambda u: None).parseString(out_bytes, href=self.root))
+                finally:
+                    cu.log.raiseExceptions = mode
+                if k2 != "ok":
+                    raise Viol("flatten_total", "csscombine(path):output-unparsable", f"{out_bytes!r}")
+                # hrefs/urls in the output are relative to the root file = relative to the root URL of the virtual web
+                self.compare(s2, self.root, "csscombine-min" if op["minify"] else "csscombine")
+            finally:
+                shutil.rmtree(tmp, ignore_errors=True)
         else:
             raise ValueError(k)
         self.stats[f"op:{k}:{out}"] += 1
@@ -436,7 +474,9 @@ def gen_op(r, w, i):
     cfg = w.cfg
     if i >= cfg["n_ops"]:
         return None
-    k = r.choice(["get_urls", "replace", "replace", "resolve", "resolve", "resolve", "combine", "combine"])
+    k = r.choice(["get_urls", "replace", "replace", "resolve", "resolve", "resolve", "combine", "combine", "combine_path"])
+    if k == "combine_path":
+        return {"op": k, "minify": r.random() < 0.5}
     if k == "get_urls":
         return {"op": k}
     if k == "replace":
